@@ -27,8 +27,8 @@ ov="$ov}}"
 if [ "$tests" = "--tests" ]; then
   echo "$ov" > "$tmp/ov.json"
   pkgs=$(for f in $files; do echo "./$(dirname "$f")/..."; done | sort -u)
-  ( cd /repo && go test -overlay "$tmp/ov.json" -vet=off -count=1 $pkgs 2>&1 | grep -v 'no test files' | tail -15 )
-  echo "repo-tests-exit=${PIPESTATUS[0]}"
+  ( cd /repo && go test -overlay "$tmp/ov.json" -vet=off -count=1 $pkgs > "$tmp/tests.log" 2>&1; echo "repo-tests-exit=$?" >> "$tmp/tests.log" )
+  grep -v 'no test files' "$tmp/tests.log" | grep -E '^(ok|FAIL|---|panic|repo-tests-exit)' | tail -15
 fi
 VERIF_NO_EVIDENCE=1 VERIF_GEN="$tmp/gen" VERIF_EXTRA_REPLACE="$extra" /verif/run "$id" "$tier"
 rc=$?
